@@ -54,11 +54,12 @@ class Harness:
         # before the swap (C08: live Functions stay valid through reorderings)
         A = base.import_dd('dd.autoref')
         hnode = z3.Int('hnode')
+        # the dd.autoref wrapper of this manager, built the way autoref.BDD.__init__ builds it
+        abdd = A.BDD.__new__(A.BDD)
+        abdd._bdd = bdd
+        abdd.vars = bdd.vars
         if self.handle:
             c.assume(z3.And(hnode >= 2, hnode <= N, z3.Select(st0.P, hnode), z3.Select(ext, hnode) > 0))
-            abdd = A.BDD.__new__(A.BDD)
-            abdd._bdd = bdd
-            abdd.vars = bdd.vars
             fh = A.Function.__new__(A.Function)
             fh.node, fh.bdd, fh.manager = SymInt(hnode), abdd, bdd      # its reference is part of EXT
             views_before = (fh.var, int(fh.level), bool(fh.negated))
@@ -90,6 +91,9 @@ class Harness:
         want_vars[names[X]], want_vars[names[X + 1]] = X + 1, X
         ok_vars = (dict(bdd.vars) == want_vars and
                    dict(bdd._level_to_var) == {i: nm for nm, i in want_vars.items()})
+        ok_wrapper = (dict(abdd.vars) == want_vars and dict(abdd.var_levels) == want_vars
+                      and all(abdd.level_of_var(nm) == i and abdd.var_at_level(i) == nm
+                              for nm, i in want_vars.items()))
         old_n, new_n = ret
         handle_ok = True
         if self.handle:
@@ -106,6 +110,7 @@ class Harness:
             Goal('unique_table_sound', m.g_pred_sound()),
             Goal('counts_exact_same_ledger', m.g_refs()),
             Goal('order_maps_exchanged', z3.BoolVal(ok_vars)),
+            Goal('autoref_wrapper_sees_the_new_order', z3.BoolVal(ok_wrapper)),
             Goal('cache_names_no_freed_node', m.g_cache_sound()),
             Goal('no_decref_warning', z3.BoolVal(not self.wrec.msgs)),
             Goal('returned_new_size', _z(new_n) == m.succ.symlen(), kind='aux'),
@@ -136,10 +141,10 @@ def replay(case):
     import dd.autoref as A
     hnode = case['args'].get('hnode')
     fh = None
+    abdd = A.BDD.__new__(A.BDD)
+    abdd._bdd = bdd
+    abdd.vars = bdd.vars
     if hnode in held:
-        abdd = A.BDD.__new__(A.BDD)
-        abdd._bdd = bdd
-        abdd.vars = bdd.vars
         fh = A.Function.__new__(A.Function)
         fh.node, fh.bdd, fh.manager = hnode, abdd, bdd
         fh.var, fh.level, fh.negated
@@ -165,6 +170,10 @@ def replay(case):
         return dict(violates=True, key='swap/order-maps', detail=f'{call}: {bad[0]}', observed=obs)
     if bdd.vars[names[x]] != x + 1 or bdd.vars[names[x + 1]] != x:
         return dict(violates=True, key='swap/order-not-exchanged', detail=f'{call}: vars {bdd.vars}', observed=obs)
+    if dict(abdd.vars) != dict(bdd.vars) or dict(abdd.var_levels) != dict(bdd.vars):
+        return dict(violates=True, key='swap/autoref-vars-stale',
+                    detail=f'{call}: dd.autoref.BDD.vars of the wrapper says {dict(abdd.vars)}, '
+                           f'the manager says {dict(bdd.vars)}', observed=obs)
     for k in held:
         if k not in bdd._succ:
             return dict(violates=True, key='swap/frees-held-node',
